@@ -334,6 +334,8 @@ class NP(object):
         if hasattr(x, 'term') and hasattr(x, 'oid'):
             from .invloop import Vec
             return _AbsVec(x)
+        if isinstance(x, _np.ndarray):
+            return _map(self.interp.builtins['abs'], x)
         return self.interp.builtins['abs'](x)
 
     def isclose(self, a, b, rtol=1e-05, atol=1e-08, equal_nan=False):
